@@ -12,6 +12,8 @@ import (
 	"sort"
 	"strconv"
 	"strings"
+
+	"golang.org/x/tools/go/ssa"
 )
 
 type Clause struct {
@@ -66,6 +68,8 @@ type Contract struct {
 	PanicSrc   string
 	PanicLabel string
 	Pure       bool
+	Deterministic bool
+	DetLabel   string
 	Assumed    bool
 	NoInline   bool
 	Loops      map[int]*LoopSpec
@@ -82,6 +86,12 @@ type Contract struct {
 	funcName   string
 	Sig        *types.Signature
 	funcType   string // named func type for "functype" contracts
+	// Alts: further assumed contracts of the same (interface) method, written by different work areas for different
+	// dynamic types of an interface-typed parameter (each restricted by `requires typeof(p) == type(T)`); the call site
+	// picks the one whose accepted types contain the statically known dynamic type of the argument (see pickAlt)
+	Alts []*Contract
+	viaVar     bool   // contract for calls through a package-level variable of function type (funcType = its name)
+	closure    bool   // contract of an anonymous function (written Parent__N)
 	// Uninterp: the body is never inlined nor verified; calls use the contract only
 }
 
@@ -111,6 +121,9 @@ type Axiom struct {
 	Src     string
 	PkgPath string
 	Imports map[string]string
+	// Props: `axiom[C14,C16] name: expr` — a background-theory axiom that is part of the check of these properties only
+	// (nil: every property). Keeps module-specific theories out of the proofs of unrelated properties.
+	Props map[string]bool
 }
 
 type SpecDB struct {
@@ -122,6 +135,7 @@ type SpecDB struct {
 	ZeroInit  map[string]*zeroInit // type string -> fact about a freshly allocated object ("this")
 	zeroDecls []zeroDecl
 	Immutable map[string]bool // type strings whose referents are never modified (refs are values)
+	Allocators map[string]bool // ghost vars that only grow (see `allocator`)
 	// Layered: ghost variables indexed (first key) by store layer; viewEq / viewEqOld / view(l) range over them
 	Layered []string
 	Errors    []string
@@ -148,13 +162,15 @@ type opaqueDecl struct {
 }
 
 func newSpecDB() *SpecDB {
-	return &SpecDB{Contracts: map[string]*Contract{}, Ghosts: map[string]*GhostFunc{}, GhostVars: map[string]*GhostVar{}, Immutable: map[string]bool{}, ZeroInit: map[string]*zeroInit{}}
+	return &SpecDB{Contracts: map[string]*Contract{}, Ghosts: map[string]*GhostFunc{}, GhostVars: map[string]*GhostVar{}, Immutable: map[string]bool{}, Allocators: map[string]bool{}, ZeroInit: map[string]*zeroInit{}}
 }
+
+var closureNameRe = regexp.MustCompile(`^(.+)__(\d+)$`)
 
 var labelRe = regexp.MustCompile(`^\[([A-Za-z0-9_.,\- ]+)\]`)
 
 var clauseKw = map[string]bool{"requires": true, "ensures": true, "modifies": true, "panics": true, "pure": true,
-	"assumed": true, "invariant": true, "decreases": true, "noinline": true, "trusted": true, "at": true, "fresh_writes": true}
+	"assumed": true, "invariant": true, "decreases": true, "noinline": true, "trusted": true, "at": true, "deterministic": true, "fresh_writes": true}
 
 // parseSpecFile reads //@ lines of one file. pkgPath is the package whose scope resolves unqualified Go names
 // (for prelude files it is set by `//@ package "path"`).
@@ -180,7 +196,7 @@ func (db *SpecDB) parseSpecFile(file string, pkgPath string) {
 		s  string
 	}
 	var ents []ent
-	topKw := map[string]bool{"import": true, "package": true, "opaque": true, "immutable": true, "ghost": true, "axiom": true, "func": true, "loop": true, "zeroinit": true, "functype": true, "layered": true}
+	topKw := map[string]bool{"allocator": true, "import": true, "package": true, "opaque": true, "immutable": true, "ghost": true, "axiom": true, "func": true, "loop": true, "zeroinit": true, "functype": true, "layered": true}
 	for i, raw := range lines {
 		l := strings.TrimSpace(raw)
 		var body string
@@ -275,6 +291,15 @@ func (db *SpecDB) parseSpecFile(file string, pkgPath string) {
 				}
 			}
 			cur, curLoop = nil, nil
+		case "allocator":
+			// allocator g1, g2: ghost variables of type map[K]bool that only ever grow (identities handed out);
+			// like the heap's allocation counter they are exempt from frame clauses and are havocked monotonically at
+			// every call of a verified (non-assumed) contract
+			for _, n := range strings.Split(rest, ",") {
+				if n = strings.TrimSpace(n); n != "" {
+					db.Allocators[n] = true
+				}
+			}
 		case "zeroinit":
 			// zeroinit T : expr-over-this
 			i := strings.Index(rest, ":")
@@ -331,6 +356,14 @@ func (db *SpecDB) parseSpecFile(file string, pkgPath string) {
 			}
 			cur, curLoop = nil, nil
 		case "axiom":
+			var axProps map[string]bool
+			if m := labelRe.FindStringSubmatch(rest); m != nil {
+				axProps = map[string]bool{}
+				for _, l := range strings.Split(m[1], ",") {
+					axProps[strings.TrimSpace(l)] = true
+				}
+				rest = strings.TrimSpace(rest[len(m[0]):])
+			}
 			i := strings.Index(rest, ":")
 			if i < 0 {
 				errf(en.ln, "axiom needs a name")
@@ -341,7 +374,7 @@ func (db *SpecDB) parseSpecFile(file string, pkgPath string) {
 				errf(en.ln, "%v", err)
 				continue
 			}
-			db.Axioms = append(db.Axioms, &Axiom{strings.TrimSpace(rest[:i]), e, rest[i+1:], pkgPath, copyMap(imports)})
+			db.Axioms = append(db.Axioms, &Axiom{strings.TrimSpace(rest[:i]), e, rest[i+1:], pkgPath, copyMap(imports), axProps})
 			cur, curLoop = nil, nil
 		case "func", "functype":
 			c := &Contract{File: file, Line: en.ln, PkgPath: pkgPath, Imports: copyMap(imports), SigSrc: body, Loops: map[int]*LoopSpec{}, Props: map[string]bool{}, CallAsserts: map[string][]*Clause{}, CallInvariants: map[string][]*Clause{}}
@@ -443,6 +476,11 @@ func (db *SpecDB) parseSpecFile(file string, pkgPath string) {
 				} else {
 					cur.CallAsserts[atSite] = append(cur.CallAsserts[atSite], &Clause{Kind: "assert", Label: label, Src: rest, E: e})
 				}
+			case "deterministic":
+				// deterministic [label]: no call of a node-local source (wall clock, random numbers, environment, runtime
+				// introspection) is reachable in the function's body or in anything inlined into it
+				cur.Deterministic = true
+				cur.DetLabel = label
 			case "pure":
 				cur.Pure = true
 			case "assumed":
@@ -817,9 +855,46 @@ func (db *SpecDB) resolveContracts(P *Program) {
 			}
 			sig = sg
 			c.Key = "dyncall:" + typeStr(tn.Type())
+		} else if m := closureNameRe.FindStringSubmatch(c.funcName); m != nil {
+			// `func Parent__N(params) results`: the N-th anonymous function (SSA numbering Parent$N) inside Parent
+			inner := c.funcName
+			c.funcName = m[1]
+			parent, err := c.resolveFunc(P)
+			c.funcName = inner
+			if err != nil {
+				db.Errors = append(db.Errors, fmt.Sprintf("%s:%d: %v", c.File, c.Line, err))
+				continue
+			}
+			c.Key = parent.FullName() + "$" + m[2]
+			var cf *ssa.Function
+			for _, f := range P.allFunctions() {
+				if f.String() == c.Key {
+					cf = f
+				}
+			}
+			if cf == nil {
+				db.Errors = append(db.Errors, fmt.Sprintf("%s:%d: no anonymous function %s", c.File, c.Line, c.Key))
+				continue
+			}
+			sig = cf.Signature
+			c.RecvName, c.recvExpr = "", nil
+			c.closure = true
+		} else if v := c.resolveFuncVar(P); v != nil {
+			// package-level variable of function type (e.g. `var MsgTypeURL = codectypes.MsgTypeURL`): the contract
+			// applies to calls through the variable (package-level variables are assumed not to be reassigned, T4)
+			sig = v.Type().Underlying().(*types.Signature)
+			c.Key = "varcall:" + v.Pkg().Path() + "." + v.Name()
+			c.funcType = v.Name()
+			c.viaVar = true
 		} else {
 			obj, err := c.resolveFunc(P)
 			if err != nil {
+				if tp := P.lookupPkg(c.PkgPath); tp != nil && !tp.Complete() {
+					// the package is only known through other packages' export data (an indirect dependency of this
+					// load): its scope is partial, the functions of this contract cannot be called by the loaded code
+					db.Skipped = append(db.Skipped, fmt.Sprintf("%s:%d (package %s only partially loaded)", c.File, c.Line, c.PkgPath))
+					continue
+				}
 				db.Errors = append(db.Errors, fmt.Sprintf("%s:%d: %v", c.File, c.Line, err))
 				continue
 			}
@@ -837,11 +912,33 @@ func (db *SpecDB) resolveContracts(P *Program) {
 			continue
 		}
 		if prev, dup := db.Contracts[c.Key]; dup {
+			if prev.Assumed && c.Assumed && len(typeGuards(prev)) > 0 && len(typeGuards(c)) > 0 {
+				prev.Alts = append(prev.Alts, c)
+				continue
+			}
 			db.Errors = append(db.Errors, fmt.Sprintf("%s:%d: duplicate contract for %s (also %s:%d)", c.File, c.Line, c.Key, prev.File, prev.Line))
 			continue
 		}
 		db.Contracts[c.Key] = c
 	}
+}
+
+func (c *Contract) resolveFuncVar(P *Program) *types.Var {
+	if c.recvExpr != nil {
+		return nil
+	}
+	o, err := P.resolveNamed(c.funcName, c.PkgPath, c.Imports)
+	if err != nil {
+		return nil
+	}
+	v, ok := o.(*types.Var)
+	if !ok || v.Pkg() == nil || v.Parent() != v.Pkg().Scope() {
+		return nil
+	}
+	if _, ok := v.Type().Underlying().(*types.Signature); !ok {
+		return nil
+	}
+	return v
 }
 
 func (c *Contract) resolveUnnamedFuncType(P *Program) (*types.Signature, error) {
@@ -940,4 +1037,34 @@ func loadSpecs(P *Program, dirs []string) *SpecDB {
 	}
 	db.resolveContracts(P)
 	return db
+}
+
+// typeGuards: the atoms `typeof(p) == type(T)` of the requires clauses of c, as (parameter name, type expression) pairs.
+func typeGuards(c *Contract) [][2]interface{} {
+	var out [][2]interface{}
+	var walk func(x Expr)
+	walk = func(x Expr) {
+		switch x := x.(type) {
+		case *EBin:
+			if x.Op == "==" {
+				if call, ok := x.X.(*ECall); ok {
+					if id, ok := call.Fun.(*EIdent); ok && id.Name == "typeof" && len(call.Args) == 1 {
+						if pn, ok := call.Args[0].(*EIdent); ok {
+							if tl, ok := x.Y.(*ETypeLit); ok {
+								out = append(out, [2]interface{}{pn.Name, tl.T})
+							}
+						}
+					}
+				}
+			}
+			walk(x.X)
+			walk(x.Y)
+		case *EUn:
+			walk(x.X)
+		}
+	}
+	for _, r := range c.Requires {
+		walk(r.E)
+	}
+	return out
 }
